@@ -689,3 +689,4 @@ PROPS["C18"]["rule"] += " The js requests include scripts that need a library of
 PROPS["C18"]["rule"] += " Ill-typed parent lists include JSON text whose elements are not all names ([null], [\"x\", null], [1])."
 PROPS["C18"]["rule"] += " Some js requests give their code as an array of lines (one of which ends in a // comment)."
 PROPS["C02"]["rule"] += " One fact in twenty has an object under \"rule\" (a rule body, well-formed or not): whatever is decided when it is added must hold for the location loaded from storage, too."
+PROPS["C17"]["rule"] += " In the concurrent-create part a checked request that is over before the first CreateLocation has begun must have failed."
